@@ -65,6 +65,7 @@ Proof. exact set_column_self. Qed.
 Print Assumptions c13_setcolumn_record.
 
 Theorem c13_create_stores_current_values : forall c s r,
+  c_keep c = false ->
   s_err s = [] -> existsb m_nil (s_recs s) = false -> NoDup (map m_tag (s_recs s)) -> In r (s_recs s) ->
   In (c_table c, m_tag r, m_val r) (s_tbl (stmt_create c s)).
 Proof. exact stmt_create_stores. Qed.
